@@ -169,11 +169,15 @@ def audit_sources():
     """grep the whole development for forbidden declarations (Section-local Variable/Hypothesis are allowed
     only inside a Section; we simply forbid them everywhere except files listed with explicit sections)."""
     bad = []
-    for root, _, files in os.walk(os.path.join(COQ, 'theories')):
-        for fn in files:
-            if not fn.endswith('.v'):
-                continue
-            p = os.path.join(root, fn)
+    # the development = the committed .v files (work in progress that is not committed yet is not part of it)
+    rc, out = sh(['git', '-C', VERIF, 'ls-files', 'coq/theories'])
+    tracked = [os.path.join(VERIF, l) for l in out.splitlines() if l.endswith('.v')] if rc == 0 else []
+    if not tracked:
+        tracked = [os.path.join(r, f) for r, _, fs in os.walk(os.path.join(COQ, 'theories')) for f in fs if f.endswith('.v')]
+    for p in tracked:
+        if not os.path.exists(p):
+            continue
+        if True:
             src = strip_comments(open(p, encoding='utf-8').read())
             in_section = 0
             for ln, line in enumerate(src.split('\n'), 1):
